@@ -7,10 +7,10 @@ PROPERTY = "C09"
 ASSUMPTIONS = vh_c02.ASSUMPTIONS[:4] + [
     "history monitor after every step on the complete history: ids 1..n contiguous with previousEventId = id-1, timestamps non-decreasing, first event ExecutionStarted carrying the record's input, terminal iff exactly one ExecutionSucceeded/ExecutionFailed that is last and agrees with the record; every StateExited has an earlier unmatched StateEntered of the same name and an execution that succeeds without any failure event has no entered-but-not-exited state; EXPRESS executions store neither record nor history",
 ]
-SPLIT = {"par2": [("_none", "not fa and not fb"), ("_a", "fa and not fb"), ("_ab", "fa and fb")],
+SPLIT = {"nested_par": [("_fail", "fail")], "par_branch_retry": [("_fail", "bfail")], "par_inner_catch": [("_fail", "bfail")], "par2": [("_none", "not fa and not fb"), ("_a", "fa and not fb"), ("_ab", "fa and fb")],
          "par_catch": [("_s%d_a" % s, "sib == %d and fa and not fb" % s) for s in range(3)],
          "map_items": [("_ok", "failing == -1"), ("_fail", "failing >= 0 and n >= 1")]}
-scn.register(globals(), {"C09"}, ["seq_chain", "seq_misc", "two_execs", "start_routes", "par2", "par_pass_task", "par_catch", "par_retry", "map_items"], SPLIT)
+scn.register(globals(), {"C09"}, ["seq_chain", "seq_misc", "two_execs", "start_routes", "par2", "par_pass_task", "par_catch", "par_retry", "map_items", "par_wait_fail", "par_branch_retry", "par_inner_catch", "nested_par"], SPLIT)
 
 
 # ---------------------------------------------------------------------------
